@@ -77,7 +77,13 @@ func runC08(w *World, r *Report, tier string) {
 		{"xmpp.(*Client).sendWithWriter", wholeParam, false},
 		{"xmpp.(*Component).sendWithWriter", wholeParam, false},
 	} {
-		fn := w.Func(s.key)
+		fn := w.FuncOpt(s.key)
+		if fn == nil && strings.HasSuffix(s.key, ".sendWithWriter") {
+			continue // the one-line wrapper has been inlined: its callers now write directly and are judged as such
+		}
+		if fn == nil {
+			fn = w.Func(s.key)
+		}
 		r.Anchor(s.key)
 		bad := ""
 		nOK := 0
@@ -141,7 +147,7 @@ func runC08(w *World, r *Report, tier string) {
 			if !isRet {
 				return
 			}
-			if !isNilConst(ret.Results[len(ret.Results)-1]) {
+			if !isNilConst(rvI(ret.Results[len(ret.Results)-1], len(path)-1)) {
 				return
 			}
 			nOK++
@@ -153,11 +159,12 @@ func runC08(w *World, r *Report, tier string) {
 			}
 			for _, in := range path {
 				if isSend(in) {
-					a := asCall(in).Common().Args[1]
+					as := asCall(in).Common().Args
+					a := as[len(as)-1]
 					if mi, ok := a.(*ssa.MakeInterface); ok {
 						a = mi.X
 					}
-					if !isParamOf(a, fn) {
+					if !isParamOf(rvAny(a), fn) {
 						bad = "SendIQ sends something other than the iq it was given"
 					}
 				}
@@ -210,20 +217,27 @@ func runC08(w *World, r *Report, tier string) {
 
 	// ---- R3 error propagation
 	for _, k := range []string{"xmpp.(*Client).Send", "xmpp.(*Client).SendRaw", "xmpp.(*Component).Send", "xmpp.(*Component).SendRaw", "xmpp.(*Client).sendWithWriter", "xmpp.(*Component).sendWithWriter", "xmpp.(*Client).SendIQ", "xmpp.(*Component).SendIQ"} {
-		fn := w.Func(k)
+		fn := w.FuncOpt(k)
+		if fn == nil && strings.HasSuffix(k, ".sendWithWriter") {
+			continue
+		}
+		if fn == nil {
+			fn = w.Func(k)
+		}
 		n := 0
-		allInstrs(fn, func(in ssa.Instruction) {
+		isSendCall := w.isCallTo("xmpp.Client.Send", "xmpp.Component.Send")
+		allInstrsH(fn, func(in ssa.Instruction) {
 			c, ok := in.(*ssa.Call)
 			if !ok {
 				return
 			}
 			ck := w.callKey(c)
-			if !(ck == "encoding/xml.Marshal" || isW(in) || ck == "xmpp.Client.Send" || ck == "xmpp.Component.Send") || isLogWrite(w, c) {
+			if !(ck == "encoding/xml.Marshal" || isW(in) || isSendCall(in)) || isLogWrite(w, c) {
 				return
 			}
 			n++
 			cons := fmt.Sprintf("%s→%s#%d", k, ck, n)
-			bad := errorDropped(w, fn, c)
+			bad := errorDropped(w, c.Parent(), c)
 			r.Check(bad == "", "R3", cons, w.ipos(c), bad, "error returned or tested on every path; non-nil edge never returns nil")
 		})
 	}
@@ -318,19 +332,29 @@ func c08StreamLogger(w *World, r *Report) {
 				bad = "loop of unknown shape"
 				return
 			}
-			if !isNilConst(ret.Results[1]) {
-				return
+			res := valueOnPath(rvI(ret.Results[1], len(path)-1), path)
+			if !isNilConst(res) {
+				// an error that this path has found non-nil, or a constructed one: not a success path
+				if _, isC := res.(*ssa.Const); isC {
+					return
+				}
+				if pathAsserts(path, func(c ssa.Value, truth bool) bool { return assertsNonNil(c, truth, res) }) {
+					return
+				}
+				if _, isLoad := res.(*ssa.UnOp); isLoad {
+					return // a package-level error value (io.ErrShortWrite)
+				}
 			}
 			nOK++
 			nSock, iSock, iLog := 0, -1, -1
-			for i, in := range path {
+			forPath(path, func(i int, in ssa.Instruction) {
 				c := asCall(in)
 				if c == nil || !strings.HasSuffix(w.callKey(c), ".Write") {
-					continue
+					return
 				}
 				a := c.Common().Args[len(c.Common().Args)-1]
-				if !isParamOf(a, fn) {
-					continue
+				if !isParamOf(rvI(a, i), fn) {
+					return
 				}
 				if isLogWrite(w, c) {
 					if iLog < 0 {
@@ -340,7 +364,7 @@ func c08StreamLogger(w *World, r *Report) {
 					nSock++
 					iSock = i
 				}
-			}
+			})
 			if nSock != 1 {
 				bad = fmt.Sprintf("%d socket writes of p on a success path", nSock)
 			}
@@ -454,25 +478,52 @@ func c08Bookkeeping(w *World, r *Report, rule string) {
 	fMu := w.Field("stanza.UnAckQueue.RWMutex")
 	mutators := []string{"stanza.UnAckQueue.Push", "stanza.UnAckQueue.Pop", "stanza.UnAckQueue.PopN"}
 	n := 0
+	lis := map[*ssa.Function]*lockInfo{}
+	li := func(f *ssa.Function) *lockInfo {
+		if lis[f] == nil {
+			lis[f] = analyseLocks(w, f, fMu)
+		}
+		return lis[f]
+	}
+	// held for writing at in: locally, or — inside a helper — at every call of the helper
+	var heldW func(in ssa.Instruction, depth int) bool
+	heldW = func(in ssa.Instruction, depth int) bool {
+		f := in.Parent()
+		if li(f).holdsW(in) {
+			return true
+		}
+		if depth > 3 || !isHelper(f) {
+			return false
+		}
+		sites := w.callSitesOf(f)
+		if len(sites) == 0 {
+			return false
+		}
+		for _, cs := range sites {
+			if !heldW(cs, depth+1) {
+				return false
+			}
+		}
+		return true
+	}
+	cnt := map[string]int{}
 	for _, f := range w.LibFuncs() {
 		if f.Pkg != nil && f.Pkg.Pkg.Path() == pkgStanza {
 			continue // the queue's own methods call each other (PopN→PeekN) under the caller's lock
 		}
 		calls := w.callsIn(f, mutators...)
-		if len(calls) == 0 {
-			continue
-		}
-		li := analyseLocks(w, f, fMu)
-		cnt := map[string]int{}
 		for _, c := range calls {
-			n++
-			k := w.funcKey(f) + "→" + strings.TrimPrefix(w.callKey(c), "stanza.UnAckQueue.")
-			cnt[k]++
-			cons := k
-			if cnt[k] > 1 {
-				cons = fmt.Sprintf("%s#%d", k, cnt[k])
+			// one obligation per function on whose behalf the call runs (a helper shared by Send and SendRaw counts for both)
+			for _, o := range w.owners(f) {
+				n++
+				k := w.funcKey(o) + "→" + strings.TrimPrefix(w.callKey(c), "stanza.UnAckQueue.")
+				cnt[k]++
+				cons := k
+				if cnt[k] > 1 {
+					cons = fmt.Sprintf("%s#%d", k, cnt[k])
+				}
+				r.Check(heldW(c.(ssa.Instruction), 0), rule, cons+"#lock", w.ipos(c), "the unacknowledged-stanza queue is modified without holding its mutex: two goroutines sending concurrently race on the slice (lost or duplicated entries, duplicate sequence numbers), and a sender races with the acknowledgement handler", "queue mutex held for writing")
 			}
-			r.Check(li.holdsW(c.(ssa.Instruction)), rule, cons+"#lock", w.ipos(c), "the unacknowledged-stanza queue is modified without holding its mutex: two goroutines sending concurrently race on the slice (lost or duplicated entries, duplicate sequence numbers), and a sender races with the acknowledgement handler", "queue mutex held for writing")
 		}
 	}
 	if n < 4 {
@@ -498,7 +549,7 @@ func c08Bookkeeping(w *World, r *Report, rule string) {
 					ok := true
 					for _, p := range pushes {
 						for _, wr := range writes {
-							if !li.sameRegion(p.(ssa.Instruction), wr.(ssa.Instruction)) {
+							if !li.sameRegion(w.liftTo(fn, p.(ssa.Instruction)), w.liftTo(fn, wr.(ssa.Instruction))) {
 								ok = false
 							}
 						}
